@@ -15,11 +15,15 @@ for name in $names; do
   wt=/tmp/seedsweep/$name
   rm -rf $wt; git -C /repo worktree prune
   git -C /repo worktree add -q --detach $wt HEAD || { echo "$name: cannot create worktree"; continue; }
+  # the generated headers a fresh checkout lacks (none of the seeded patches touches their sources; if one does, build them)
   cp /repo/config.h $wt/config.h 2>/dev/null
+  cp /repo/src/internal/schema.h /repo/src/internal/version.h $wt/src/internal/ 2>/dev/null
+  if grep -q "cif_schema.sql\|configure.ac" seeded/$name/patch.diff; then REGEN=1; else REGEN=0; fi
   if ! git -C $wt apply --3way seeded/$name/patch.diff 2>/dev/null && ! git -C $wt apply "$(pwd)/seeded/$name/patch.diff" 2>/dev/null; then
     echo "$name: patch no longer applies to $head"; echo "patch no longer applies to /repo $head (the code it changed was since repaired or rewritten)" > seeded/$name/detection.txt
     git -C /repo worktree remove --force $wt; continue
   fi
+  [ $REGEN = 1 ] && (cd $wt && ./configure -q >/dev/null 2>&1 && make -C src internal/schema.h internal/version.h >/dev/null 2>&1)
   pids=$(python3 - "$name" <<'PY'
 import json, sys
 n = sys.argv[1]
